@@ -848,7 +848,12 @@ func (c *Cluster) Step(o Op) (rc int) {
 				panic(fmt.Sprintf("unsub filler: %v", err))
 			}
 		}
-		send()
+		// a request every subscriber is handed, filtered or not (a gossip marker batch: a filtered
+		// subscriber never sees the lease-forwarded fillers, whose TxRequest.Leaseholder is the host)
+		c.marker++
+		n.fbWant++
+		c.send(n, kv.TxRequest{Context: c.ctx, Sender: markerSender, Operations: []kv.Operation{
+			markerOp(keyM, c.marker, markerVerBase+c.marker), markerOp(keyR, 0, markerVerBase)}})
 		waitFor("gated subscriber mid-callback", func() bool { return s.inCallback.Load() })
 		go func() { s.disconnect(); close(s.discDone) }()
 		time.Sleep(2 * time.Millisecond)
